@@ -152,21 +152,7 @@ func checkC11(w *World, r *Report) {
 			byGlobal[ci.Global] = ci
 		}
 	}
-	fromCode := w.Decl(w.Func("internal/util/enc", "FromCode"))
-	encPkg := w.Pkg("internal/util/enc")
-	registry := map[types.Object]bool{}
-	if fromCode != nil {
-		ast.Inspect(fromCode.Body, func(x ast.Node) bool {
-			if cl, ok := x.(*ast.CompositeLit); ok {
-				for _, el := range cl.Elts {
-					if id, ok := el.(*ast.Ident); ok {
-						registry[encPkg.TypesInfo.Uses[id]] = true
-					}
-				}
-			}
-			return true
-		})
-	}
+	registry := codecRegistry(w)
 	for _, name := range []string{"AutodetectEncodingUpstream", "AutodetectEncodingDowntream"} {
 		fd := w.Decl(methodOf(cdc, name))
 		key := "candidates:" + name
@@ -304,9 +290,51 @@ func checkC11(w *World, r *Report) {
 						}
 					}
 				})
+				// positive form: from every execution of the probe, the candidate is kept (next pattern probed, or
+				// committed) only through the probe's err == nil edge; leaving through a re-pick of the
+				// candidate or a return is free
+				repick := map[ssa.Instruction]bool{}
+				for _, root := range provenance(st.Val, provOpts{}) {
+					if ri, ok := root.(ssa.Instruction); ok && ri.Block() != nil && ri.Parent() == fn {
+						repick[ri] = true
+					}
+				}
+				nprobe := 0
+				for _, pc := range callsIn(fn) {
+					if sCallee(pc) != probeM {
+						continue
+					}
+					pcall, ok := pc.(*ssa.Call)
+					if !ok {
+						continue
+					}
+					nprobe++
+					okp := enumPaths(fn, pcall, nil, func(x ssa.Instruction) bool { return x == in || x == ssa.Instruction(pcall) || repick[x] }, func(e pathExit) {
+						if e.Stop == nil || repick[e.Stop] {
+							return
+						}
+						clean := false
+						for v, t := range e.State.Facts {
+							x, eqNil, ok := nilTest(v)
+							if ok && x == ssa.Value(pcall) && t == eqNil {
+								clean = true
+							}
+						}
+						if !clean && bad == "" {
+							what := "committed"
+							if e.Stop != in {
+								what = "probed with its next pattern"
+							}
+							bad = fmt.Sprintf("%s: after this probe the codec under test can be %s on a path that never established err == nil for it (an unanswered or otherwise failed pattern is skipped instead of disqualifying the codec): the handshake then reports success with a codec the path does not carry", w.Pos(pcall.Pos()), what)
+						}
+					})
+					if !okp {
+						bad = "path budget exceeded"
+					}
+				}
 				if npaths > 0 {
 					nfb++
-					r.Check(bad == "", "R11.5", key, w.Pos(st.Pos()), "the probed candidate is committed only where its probe reported no error", bad)
+					r.Check(bad == "" && nprobe > 0, "R11.5", key, w.Pos(st.Pos()), "the probed candidate is committed only where every pattern's probe reported no error", bad+mapStr(nprobe == 0, "no probe call found beside the commit of a candidate"))
 				}
 				return
 			}
